@@ -180,7 +180,11 @@ class Snowflake:
         | expr STAGE_FILE_FORMAT EQ ID"""
         p[0] = p[1]
         p_list = remove_par(list(p))
-        p[0]["stage_file_format"] = p_list[-1] if len(p_list[-1]) > 1 else p_list[-1][0]
+        value = p_list[-1]
+        if isinstance(value, (list, tuple)) and len(value) == 1:
+            value = value[0]
+        # (a dict of options stays a dict, also when it holds a single option)
+        p[0]["stage_file_format"] = value
 
     def p_expression_table_format(self, p: List) -> None:
         """expr : expr TABLE_FORMAT table_property_equals"""
